@@ -8,6 +8,7 @@ Statements about `Model/StakePool.lean` (`DistributeRewards`, `DistributeRewards
 `Upd` is what the Go code records in `spUpdate` (provider reward + per-delegate rewards): the increments.
 
 * `distribute_exact`            — if the service charge does not exceed the value, provider + delegates = value (ℕ, no wrap)
+* `distribute_state`            — and the stored delegate rewards (and the provider's) move by exactly those increments
 * `serviceCharge_le_value_partial` — that hypothesis holds for `ratio ∈ [0,1]`, `value < 2^53`
 * `serviceCharge_exceeds_value_witness`, `distribute_not_exact_witness` — and FAILS at `value = 2^53+3`, `ratio = 1.0`:
   the full property (“any amount”) is false of the code; the built-in assertion passes because its sum wraps too
@@ -121,6 +122,54 @@ theorem distribute_exact (sp : SP) (value : Nat) (sp' : SP) (u : Upd) (hv : valu
           injection h2 with h2; subst h1 h2
           simp only [hds', hws]
           exact ⟨by omega, hr1⟩
+
+/-- **distribute_state.** … and the STORED delegate rewards move by exactly the recorded increments (balances untouched),
+as long as the accumulated rewards are not within `value` of `2^64` (they are bounded by the token supply). -/
+theorem distribute_state (sp : SP) (value : Nat) (sp' : SP) (u : Upd) (hv : value < U64)
+    (h : distributeRewards sp value = .ok (sp', some u))
+    (hsc : ∀ sc, serviceChargeOf sp value = .ok sc → sc ≤ value)
+    (hfar : ∀ p ∈ sp.pools, p.reward + value < U64) :
+    R3 sp.pools sp'.pools u.dr := by
+  unfold distributeRewards at h
+  obtain ⟨pre, hpre, h⟩ := bind_ok h
+  obtain ⟨total, _, hcases⟩ := prefixPart_cases hpre
+  rcases hcases with ⟨_, rfl⟩ | ⟨_, he, nr, hnr, rfl⟩ | ⟨_, hne, sc, sp1, hsc1, hp1, hr1, hvl⟩
+  · simp only at h; injection h with h; injection h with _ h; cases h
+  · simp only at h; injection h with h; injection h with h1 h2
+    injection h2 with h2; subst h1 h2
+    simp only [he]; exact R3.nil
+  · have hle := hsc sc hsc1
+    have hws : wrapSub value sc = value - sc := wrapSub_of_le hv hle
+    rcases hvl with ⟨hz, rfl⟩ | ⟨hz, rfl⟩
+    · simp only at h; injection h with h; injection h with h1 h2
+      injection h2 with h2; subst h1 h2
+      rw [hp1]; exact R3_refl_zero _
+    · simp only at h
+      obtain ⟨stake, hstake, h⟩ := bind_ok h
+      split at h
+      · cases h
+      · obtain ⟨⟨ps, ds, vb⟩, hloop, h⟩ := bind_ok h
+        obtain ⟨⟨ps', ds'⟩, heq, h⟩ := bind_ok h
+        obtain ⟨a, b, c⟩ := distLoop_sum _ _ _ _ ps ds vb hloop
+        have hr0 := distLoop_R3 _ _ _ _ ps ds vb hloop
+        have hfin : R3 sp1.pools ps' ds' := by
+          by_cases hpos : 0 < vb
+          · rw [if_pos hpos] at heq
+            have hlen : 0 < ps.length := by
+              rw [c, hp1]; exact List.length_pos_iff.mpr hne
+            exact equally_R3 vb sp1.pools ps ds ps' ds' value hr0 hlen (by rw [a, hws]; omega)
+              (by rw [hp1]; exact hfar) hv heq
+          · rw [if_neg hpos] at heq
+            injection heq with heq; injection heq with h1 h2
+            have h1' : ps = ps' := h1
+            have h2' : ds = ds' := h2
+            rw [← h1', ← h2']; exact hr0
+        split at h
+        · cases h
+        · injection h with h; injection h with h1 h2
+          injection h2 with h2; subst h1 h2
+          simp only
+          rw [← hp1]; exact hfin
 
 /-- **serviceCharge_le_value_partial.** For a finite ratio in `[0,1]` and `value < 2^53` the float-computed
 service charge `uint64(ratio * float64(value))` is defined and `≤ value` — the hypothesis of `distribute_exact`. -/
